@@ -2,13 +2,15 @@
 
 pub mod event;
 pub mod mutex;
+pub mod oneshot;
 pub mod semaphore;
+pub mod state;
 pub mod timer;
 
 use crate::common::World;
 
 pub fn all() -> Vec<&'static dyn World> {
-    vec![&mutex::MutexWorld, &semaphore::SemaphoreWorld, &event::EventWorld, &timer::TimerWorld]
+    vec![&mutex::MutexWorld, &semaphore::SemaphoreWorld, &event::EventWorld, &timer::TimerWorld, &oneshot::OneshotWorld, &state::StateWorld]
 }
 
 pub fn by_name(name: &str) -> Option<&'static dyn World> {
